@@ -473,10 +473,10 @@ pub fn run_history(tr: &Tracer, run: i64, ops: &[Value], sched: Option<&Vec<i64>
             }
             // a guard still held at the end of the program is released by one more (logged) call
             let mut prog = prog;
-            prog.push(json!({"op": "DropGuard", "h": t, "a": 0, "b": 0, "n": 0}));
+            prog.push(json!({"op": "DropGuard", "h": t, "a": 0, "b": 0, "n": 0, "synthetic": 1}));
             let align = !directed && ALIGN.load(Ordering::Relaxed);
             for (k, o) in prog.iter().enumerate() {
-                if directed && gets(o, "op") != "DropGuard" {
+                if directed && geti(o, "synthetic") == 0 {
                     dir.point("op");
                 }
                 if align && k < arrivals.len() {
